@@ -207,8 +207,8 @@ def cli_case(case, env):
 
 def check(tier, seed, t0):
     common.build_rg()
-    total = 300 if tier == "quick" else 12000
-    rep = common.merge_reports([("cli", common.run_cli_cases(None, cli_case, seed, "c10", total, 19 if tier == "quick" else 150))])
+    total = 2000 if tier == "quick" else 60000
+    rep = common.merge_reports([("cli", common.run_cli_cases(None, cli_case, seed, "c10", total, 125 if tier == "quick" else 300))])
     return common.finalize("C10", tier, seed, "exploration", RULE, rep, t0, ASSUME, floor_eval=500, floor_distinct=30)
 
 
